@@ -877,6 +877,14 @@ class MutableFileVersion:
         """
         assert self._servermap.get_last_update()[0] != MODE_READ
 
+        # Modify the best version in the (possibly just refreshed) servermap,
+        # not the version this object was created for: another writer may
+        # have replaced every share of that one.
+        best = self._servermap.best_recoverable_version()
+        if not best:
+            raise UnrecoverableFileError("no recoverable versions")
+        self._version = best
+
         # download_to_data is serialized, so we have to call this to
         # avoid deadlock.
         d = self._try_to_download_data()
